@@ -207,16 +207,91 @@ func hisCase(mode string, seed uint64, stat func(string)) *hisFile {
 		return hisBuild(r, hisRandomPlan(r, true), false, stat)
 	case "stm":
 		return hisBuild(r, hisStreamPlan(r), false, stat)
-	case "osr":
-		// an object-stream member whose value is an indirect reference (known finding)
+	case "osr", "osrc":
+		// an object-stream member whose value is an indirect reference.  "osr": white space of every
+		// kind between the tokens, leading zeros (up to six digits), a sign on the object number;
+		// "osrc": spellings which the other reference readers of the library accept but the
+		// look-ahead of getFromObjStm (444f7d4) does not: a comment between the tokens, a signed
+		// generation, a generation of more than six digits
+		wsp := func() string {
+			n := 1 + r.Intn(3)
+			b := make([]byte, n)
+			for i := range b {
+				b[i] = Pick(r, hisWS)
+			}
+			return string(b)
+		}
+		num := Pick(r, []string{"2", "2", "02", "+2", "0002"})
+		gen := Pick(r, []string{"0", "0", "00", "000000", "00000"})
+		w1, w2 := wsp(), wsp()
+		if parts[0] == "osrc" {
+			switch r.Intn(4) {
+			case 0:
+				w1 = " %c\n" + Pick(r, []string{"", " "})
+			case 1:
+				w2 = "%x\r"
+			case 2:
+				gen = "+0"
+			default:
+				gen = "0000000"
+			}
+		}
+		text := num + w1 + gen + w2 + "R" + Pick(r, []string{"", " ", "\n", "\x00"})
 		infra, tr := hisInfraActions(2)
 		plan := &hisPlan{Version: "1.7", Revs: []hisRevPlan{{Kind: 1 + r.Intn(2), Trailer: tr, Actions: append(infra,
-			hisAction{Num: 1, Val: hisVal{Obj: pdf.NewReference(2, 0)}, Compressed: true},
+			hisAction{Num: 1, Val: hisVal{Obj: pdf.NewReference(2, 0), Raw: []byte(text)}, Compressed: true},
 			hisAction{Num: 2, Val: hisVal{Obj: pdf.Integer(42)}},
 		)}}}
 		return hisBuild(r, plan, false, stat)
 	}
+	if strings.HasPrefix(parts[0], "osrv") {
+		// osrv<k>: the k-th edge case of hisOsrVariants
+		k, _ := strconv.Atoi(parts[0][4:])
+		v := hisOsrVariants[k]
+		infra, tr := hisInfraActions(3)
+		acts := append(infra, hisAction{Num: 2, Val: hisVal{Obj: pdf.Integer(42)}})
+		for i, m := range v.members {
+			acts = append(acts, hisAction{Num: []int{1, 3}[i], Compressed: true,
+				Val: hisVal{Obj: m.denotes, Raw: []byte(m.text), Tight: m.tight}})
+		}
+		plan := &hisPlan{Version: "1.7", Revs: []hisRevPlan{{Kind: 1 + r.Intn(2), Trailer: tr, Actions: acts}}}
+		return hisBuild(r, plan, false, stat)
+	}
 	panic("his: unknown case mode " + mode)
+}
+
+// edge cases of the `n g R` look-ahead for object-stream members (reader.go:referenceTail).
+// `denotes` is the value the member has: a conforming member that is written as a reference
+// denotes that reference; for the non-conforming texts it is what the library documents
+// (the integer), and only the byte-level model is compared with the code.
+type hisOsrMember struct {
+	text    string
+	denotes pdf.Object
+	tight   bool
+}
+
+var hisOsrVariants = []struct {
+	conforming bool
+	members    []hisOsrMember
+}{
+	{true, []hisOsrMember{{"2 0 R", pdf.NewReference(2, 0), false}}},
+	{true, []hisOsrMember{{"2 0 R ", pdf.NewReference(2, 0), false}}},
+	{true, []hisOsrMember{{"2  0\nR", pdf.NewReference(2, 0), false}}},
+	{true, []hisOsrMember{{"2\t00000 \r\nR\n", pdf.NewReference(2, 0), false}}},
+	{false, []hisOsrMember{{"2 0 Rx", pdf.Integer(2), false}}},
+	{false, []hisOsrMember{{"2 0", pdf.Integer(2), false}}},
+	{true, []hisOsrMember{{"2", pdf.Integer(2), false}}},
+	{false, []hisOsrMember{{"2 65536 R", pdf.Integer(2), false}}},
+	{false, []hisOsrMember{{"2 0000000 R", pdf.Integer(2), false}}},
+	// "2 0 R" directly followed by the next member (the window ends at its offset)
+	{true, []hisOsrMember{{"2 0 R", pdf.NewReference(2, 0), false}, {"/Next", pdf.Name("Next"), true}}},
+	{true, []hisOsrMember{{"2 0 R", pdf.NewReference(2, 0), false}, {"57", pdf.Integer(57), true}}},
+	{true, []hisOsrMember{{"2 0 R", pdf.NewReference(2, 0), false}, {"(s)", pdf.String("s"), false}}},
+	// an integer member followed by a member that starts with digits: "2" and "0 R…" must not be
+	// merged across the offset boundary
+	{false, []hisOsrMember{{"2 ", pdf.Integer(2), false}, {"0 R", pdf.Integer(0), true}}},
+	{true, []hisOsrMember{{"2 ", pdf.Integer(2), false}, {"0 ", pdf.Integer(0), true}}},
+	{true, []hisOsrMember{{"2\n", pdf.Integer(2), false}, {"16 0 R", pdf.NewReference(16, 0), true}}},
 }
 
 // ---- the implementation's answers ----
@@ -364,8 +439,8 @@ func runC04(c *Ctx) {
 		res.key = fmt.Sprintf("%016x", h.Sum64())
 		answers, key, desc := hisOracle(f)
 		if key != "" {
-			if j.mode == "osr" && key == "history-get" {
-				key = "objstm-member-is-reference"
+			if j.mode == "osrc" && key == "history-get" {
+				key = "objstm-reference-unusual-spelling"
 			}
 			res.vKey, res.vDsc = key, desc+" ["+j.mode+"]"
 		}
@@ -464,9 +539,29 @@ func runC04(c *Ctx) {
 		one(fmt.Sprintf("explain:1:2:%d", code), r.U64(), true)
 	}
 
-	// the witness of the known finding (an object-stream member that is just `n g R`)
-	for i := 0; i < 3; i++ {
-		one("osr", r.U64(), false)
+	// object-stream members that are just `n g R` (repaired by 444f7d4: a recurrence is a violation),
+	// in random spelling and in the edge cases of the look-ahead; the conforming ones go through
+	// the oracle, all of them through the byte-level correspondence (HIS open)
+	for i := 0; i < 40; i++ {
+		one("osr", r.U64(), true)
+	}
+	for i := 0; i < 8; i++ {
+		one("osrc", r.U64(), false)
+	}
+	flush()
+	for k, v := range hisOsrVariants {
+		for rep := 0; rep < 3; rep++ {
+			mode := fmt.Sprintf("osrv%d", k)
+			seed := r.U64()
+			if v.conforming {
+				one(mode, seed, true)
+				flush()
+			}
+			f := hisCase(mode, seed, nil)
+			qs := hisQueries(f)
+			c.Emit("HIS open "+hexWire(f.Bytes)+" "+hisDecodedToken(f)+" "+hisQueryToken(qs), hisOpenLine(f.Bytes, qs))
+			c.Stat("objstm_reference_edge_case")
+		}
 	}
 
 	// 2. random larger histories
